@@ -151,3 +151,21 @@ def correspondence(ctx, verdict, pr):
 
 
 MANIFEST = {'technique': 'Coq theorems over all label sequences (numbering of emitted frames, payload accounting) + generated lock-discipline obligations from go/ast (lockscan) + wire-tap correspondence + concurrent stress under the race detector', 'level_text': 'Proved in Coq for every label sequence: C13_frames_numbered (the i-th frame a side emits on a stream carries sequence number i: unique, gap-free, in emission order; only the last may be a closing frame and it carries no data) and C13_frames_carry_written (data frames carry, in sequence order, exactly the bytes the writes accepted). Generated obligations re-proved on every run about coq/Gen/Guards.v (extracted from /repo by tools/lockscan): every access of writingFrame / writingFrame.Seq happens under Stream.writingM - this is what ties "numbering and sending are one atomic step" to the source. The wire tap of every lock-step scenario is compared with the model frame by frame; a concurrent stress driver (Write/ReadFrom/Close from several goroutines, -race) checks uniqueness, per-write contiguity and close-after-completed-writes on real interleavings.', 'level_note': 'Granularity: one harness label runs to quiescence; goroutine interleavings inside a label are covered by schedule-point replays, the race detector and (C13) the concurrent stress driver, not by the theorems. Hypotheses of the theorems: stream ids returned by OpenStream are fresh at the opener (fresh_run; in Cloak only the client opens streams), fewer than 2^64-2 frames per stream direction. Frames are abstract (decoded) in this model: codec = C04, record framing = C05. Trusted: Coq kernel, extraction (ExtrOcamlBasic), testing/synctest barrier, in-memory FIFO connections. Cross-stream nonce uniqueness relies on stream ids being distinct (atomic nextStreamID) and on the single session-closing frame; the latter two are checked by the oracle, not proved.', 'design_ref': 'DESIGN.md section 6, C13'}
+
+
+# ---- numbering on the send path incl. its error branches (tools/props/winlib.py, driver shared with C10) ----
+import winlib as _winlib
+_corr_before_send = correspondence
+_replay_before_send = replay
+
+
+def correspondence(ctx, verdict, pr):
+    res = _corr_before_send(ctx, verdict, pr)
+    res['broken'] += _winlib.c13_send_numbering(ctx, verdict)
+    return res
+
+
+def replay(ctx, verdict):
+    if ctx.replay.get('kind') == 'window':
+        return _winlib.replay(ctx, verdict)
+    return _replay_before_send(ctx, verdict)
